@@ -193,6 +193,75 @@ def py_task(K, tier, seed, nread=0):
     return part.d
 
 
+def py_task_two_ticks(K, tier, seed):
+    """History dimension: a second tick on the same managed filter (after an output-only tick, which holds nothing)
+    must again move from the held time to its own target in bounded, correctly directed steps."""
+    part = Part()
+    part.program("runtime.ManagedFilter")
+    part.fn("runtime.ManagedFilter.tick", "runtime.ManagedFilter._process_model")
+    from formak import runtime
+
+    t0, o1, o2, md = z3.Real("t0"), z3.Real("out1"), z3.Real("out2"), z3.Real("max_dt")
+    assumes = [md >= qval(1e-9), md <= 10] + [z3.And(t >= -1000, t <= 1000) for t in (t0, o1, o2)]
+
+    def harness():
+        f = RecordingFilter(SymReal(md))
+        mf = runtime.ManagedFilter(f, SymReal(t0), "s", "P")
+        mf.tick(SymReal(o1))
+        n1 = len(f.dts)
+        mf.tick(SymReal(o2))
+        return f.dts[n1:], mf.current_time
+
+    leaves = explore(harness, assumes=assumes, kmax=K, max_paths=4000)
+    part.leaves(leaves)
+    tmo = tier_timeout_ms(tier)
+    ok_leaves = [l for l in leaves if l.status == "ok"]
+    if any(l.status == "exc" for l in leaves):
+        part.harness_error(f"py/two-ticks: tick raised: {[l for l in leaves if l.status == 'exc'][0]}")
+        return part.d
+    delta = o2 - t0
+    reported = False
+    for li, l in enumerate(ok_leaves):
+        dts, held = l.value
+        dts_t = [lift(d) for d in dts]
+        pc = assumes + l.pc
+        claims = [("held time unchanged by output-only ticks", lift(held) == t0)]
+        for i, d in enumerate(dts_t):
+            claims.append((f"second tick step{i} direction", z3.And(z3.Implies(delta > 0, d > 0), z3.Implies(delta < 0, d < 0), z3.Implies(delta == 0, False))))
+            claims.append((f"second tick |step{i}| <= max_dt", z3.And(d <= md, -d <= md)))
+        tot = z3.RealVal(0)
+        for d in dts_t:
+            tot = tot + d
+        claims.append(("second tick steps sum to its own time difference", z3.And(tot - delta <= qval(TOL), delta - tot <= qval(TOL))))
+        for nm, cl in claims:
+            q = solve(pc + [z3.Not(cl)], tmo)
+            part.record(q, f"py/two-ticks/K={K}/leaf{li}: {nm}")
+            if q.status == "sat" and not reported:
+                vars_ = {"t0": t0, "out1": o1, "out2": o2, "max_dt": md}
+                q2 = solve(pc + [z3.Not(cl), md >= qval(0.01), md <= 1] + dyadic_box({"t0": t0, "out1": o1, "out2": o2}, -8, 8, 16) + dyadic_box({"max_dt": md}, 0, 1, 64), 10000)
+                cands = ([env_from_model(q2.model, vars_)] if q2.status == "sat" else []) + [env_from_model(q.model, vars_)]
+                for e in cands:
+                    part.d["witnesses"] += 1
+                    f = RecordingFilter(float(e["max_dt"]))
+                    mf = runtime.ManagedFilter(f, float(e["t0"]), "s", "P")
+                    mf.tick(float(e["out1"]))
+                    n1 = len(f.dts)
+                    mf.tick(float(e["out2"]))
+                    got = [float(d) for d in f.dts[n1:]]
+                    probs = violates_float(e["t0"], e["out2"], e["max_dt"], got)
+                    if mf.current_time != e["t0"]:
+                        probs.append(f"held time moved to {mf.current_time} by output-only ticks")
+                    if probs:
+                        path = write_replay(PID, {"key": "py/two-ticks", "info": {"kind": "py-two-ticks"}, "inputs": e, "steps": got, "problems": probs})
+                        part.violation("py/two-ticks", f"second tick after an output-only tick: t0={e['t0']} out1={e['out1']} out2={e['out2']} max_dt={e['max_dt']}: steps {got}: {probs[0]}", path)
+                        reported = True
+                        break
+                else:
+                    part.d["inconclusive"].append(f"py/two-ticks/leaf{li}: {nm} sat, not reproduced")
+    part.sample({"impl": "python", "scenario": "two output-only ticks", "K": K, "leaves": len(ok_leaves)})
+    return part.d
+
+
 def _dispatch(fn, args):
     return fn(*args)
 
@@ -200,7 +269,7 @@ def _dispatch(fn, args):
 def run(tier, seed):
     rep = Report(PID, tier, seed, "other")
     K = 2 if tier == "quick" else 4
-    tasks = [(py_task, (K, tier, seed)), (py_task, (1 if tier == "quick" else 2, tier, seed, 1))]
+    tasks = [(py_task, (K, tier, seed)), (py_task, (1 if tier == "quick" else 2, tier, seed, 1)), (py_task_two_ticks, (1 if tier == "quick" else 2, tier, seed))]
     try:
         from . import c10_cpp
 
@@ -223,6 +292,20 @@ def run(tier, seed):
 def replay(path):
     with open(path) as f:
         r = json.load(f)
+    if r["info"]["kind"] == "py-two-ticks":
+        from formak import runtime
+
+        e = r["inputs"]
+        f = RecordingFilter(float(e["max_dt"]))
+        mf = runtime.ManagedFilter(f, float(e["t0"]), "s", "P")
+        mf.tick(float(e["out1"]))
+        n1 = len(f.dts)
+        mf.tick(float(e["out2"]))
+        got = [float(d) for d in f.dts[n1:]]
+        probs = violates_float(e["t0"], e["out2"], e["max_dt"], got)
+        print(got, probs)
+        print("REPRODUCED" if probs else "not reproduced")
+        return 1 if probs else 0
     if r["info"]["kind"] != "py":
         from . import c10_cpp
 
